@@ -23,7 +23,7 @@ Verbs == {"GET", "POST", "PUT", "DELETE", "PATCH"}
 \*        deep = two path variables around a literal; default = no http config (POST, derived route)
 Routes == {"pq", "p", "deep", "default"}
 UrlKinds == {"string", "int32", "int64", "uint64", "bool", "double"}
-Classes == {"ord", "zero", "max", "big53", "nonascii", "urlreserved"}
+Classes == {"ord", "zero", "max", "big53", "nonascii", "urlreserved", "padded"}
 \* how the caller supplies the value of the one required header the RPC's service / method declares
 \*   none            : no header declared
 \*   client_default  : constructor option defaultHeaders / WithXDefaultHeader(name, v)   (service level)
